@@ -348,6 +348,28 @@ func (g *PG) Expr(sc *scope, ty Ty, depth int) Val {
 			return L(S("progn"), g.Expr(sc, TyAny, depth-1), L(S("error"), QS("boom"), g.Expr(sc, TyAny, depth-1)))
 		}
 	}
+	if g.pct(4, "misc") {
+		switch g.n(0, 3, "miscform") {
+		case 0:
+			g.stat("assert")
+			a := []Val{S("assert"), g.Expr(sc, TyBool, depth-1)}
+			if g.pct(50, "assertmsg") {
+				a = append(a, Str(rapid.SampledFrom([]string{"failed {}", "no placeholder", "{} {}"}).Draw(g.t, "amsg")), g.Expr(sc, TyAny, depth-2))
+			}
+			return L(S("progn"), L(a...), g.Expr(sc, ty, depth-1))
+		case 1:
+			g.stat("eval")
+			return Call("eval", L(S("quote"), g.Expr(sc, ty, depth-1)))
+		case 2:
+			g.stat("function")
+			name := rapid.SampledFrom([]string{"+", "list", "max", "no-such-function", "x"}).Draw(g.t, "fname")
+			return Call("funcall", L(S("function"), S(name)), g.Expr(sc, TyInt, depth-1), g.Expr(sc, TyInt, depth-1))
+		default:
+			g.stat("type?")
+			tn := rapid.SampledFrom([]string{"int", "float", "string", "symbol", "list", "sorted-map", "array", "function", "bytes", "bogus"}).Draw(g.t, "tname")
+			return L(S("if"), Call("type?", QS(tn), g.Expr(sc, TyAny, depth-1)), g.Expr(sc, ty, depth-1), g.Expr(sc, ty, depth-1))
+		}
+	}
 	switch g.n(0, 19, "form") {
 	case 0, 1:
 		if v, ok := g.varOf(sc, ty); ok {
@@ -497,6 +519,9 @@ func (g *PG) builtinCall(sc *scope, ty Ty, depth int) Val {
 		case "pred":
 			return Call(pick("list?", "int?", "float?", "number?", "string?", "symbol?", "bool?", "sorted-map?", "vector?", "array?", "bytes?"), g.args(sc, depth, TyAny)...)
 		case "string<":
+			if g.pct(25, "symboleq") {
+				return Call("symbol=", g.args(sc, depth, TySym, TySym)...)
+			}
 			return Call(pick("string<", "string=", "string>=", "string>", "string<="), g.args(sc, depth, TyStr, TyStr)...)
 		case "key?":
 			return Call("key?", g.Expr(sc, TyMap, depth-1), g.keyLit())
